@@ -133,6 +133,19 @@ func VerifResetGlobals() {
 	globalL1CacheRegistry = make(map[sop.L2CacheType]*L1Cache)
 	globalL1Locker.Unlock()
 }
+
+// VerifEvictL1 empties every global L1 cache in place (what an eviction of all entries does).
+func VerifEvictL1() {
+	globalL1Locker.RLock()
+	defer globalL1Locker.RUnlock()
+	for _, c := range globalL1CacheRegistry {
+		c.locker.Lock()
+		c.lookup = make(map[sop.UUID]*l1CacheEntry, c.mru.maxCapacity)
+		c.mru = newL1Mru(c, c.mru.minCapacity, c.mru.maxCapacity)
+		c.locker.Unlock()
+		c.Handles.Clear()
+	}
+}
 ''')
 addfile('common/zz_verif_export.go', '''package common
 
